@@ -468,6 +468,11 @@ func dExec(c *dCase) (out dOutcome) {
 				keys[s.Key] = true
 			}
 		}
+		for _, h := range e.holds {
+			if !h.ended {
+				delete(keys, h.key) // a request granted out of the queue during the final jump still holds the key
+			}
+		}
 		for k := range keys {
 			i := 100000 + k
 			e.send(i, dStep{K: "lock", Key: k, Id: 900 + k, E: 5}, clients[0])
